@@ -195,8 +195,8 @@ pub (crate) fn bid___div_256_by_128(pCQ: &mut BID_UINT128, pCA4: &mut BID_UINT25
     // CQ.w[1] = (*pCQ).w[1];
     // CQ.w[0] = (*pCQ).w[0];
 
-    // Q >= 2^100 ?
-    if CA4.w[3] > CY36.w[2] || (CA4.w[3] == CY36.w[2] && (CA4.w[2] > CY36.w[1] || (CA4.w[2] == CY36.w[1] && CA4.w[1] >= CY36.w[0]))) {
+    // Q >= 2^100, or a dividend of more than 192 bits (the stages below look at its three low words only) ?
+    if CA4.w[3] != 0 || (CA4.w[3] == CY36.w[2] && (CA4.w[2] > CY36.w[1] || (CA4.w[2] == CY36.w[1] && CA4.w[1] >= CY36.w[0]))) {
         unsafe  {
             // 2^(-60)*CA4/CY
             d60.ui64 = 0x3c30000000000000u64;
